@@ -58,10 +58,15 @@ func NewNotification(method string, params map[string]interface{}) *Notification
 
 	// Extract meta-field if present
 	if meta, ok := params["_meta"]; ok {
-		if metaMap, ok := meta.(map[string]interface{}); ok {
+		switch metaMap := meta.(type) {
+		case map[string]interface{}:
 			notificationParams.Meta = metaMap
+			delete(params, "_meta")
+		case Meta:
+			notificationParams.Meta = metaMap
+			delete(params, "_meta")
 		}
-		delete(params, "_meta")
+		// Any other spelling of _meta stays among the additional fields and is marshaled as it is.
 	}
 
 	// Add remaining fields to AdditionalFields
